@@ -51,7 +51,22 @@ var c12Backends = []beFn{
 		return s, err
 	}},
 	{"dxil", func(m *ir.Module) (string, error) { b, err := dxil.Compile(m, dxil.DefaultOptions()); return string(b), err }},
+	// pipeline-constant paths (resolve overrides on an internal clone of the caller's module)
+	{"glsl-pc", func(m *ir.Module) (string, error) {
+		s, _, err := glsl.Compile(m, glsl.Options{LangVersion: glsl.Version430, EntryPoint: firstEP(m), PipelineConstants: ir.PipelineConstants{"ov0": 3, "7": 5}})
+		return s, err
+	}},
+	{"msl-pc", func(m *ir.Module) (string, error) {
+		o := msl.DefaultOptions()
+		o.PipelineConstants = map[string]float64{"ov0": 4, "7": 6}
+		s, _, err := msl.Compile(m, o)
+		return s, err
+	}},
 }
+
+// back ends recorded as modifying the caller's module (C12-dxil-compile-mutates-module): excluded from the
+// concurrent shared-module workload, where they would race by construction
+var mutates = map[string]bool{"dxil": true, "glsl-pc": true}
 
 func safeRun(b beFn, m *ir.Module) (out string, errS string) {
 	r := guard(b.name, func() error { o, err := b.run(m); out = o; return err })
@@ -81,6 +96,33 @@ func c12Pool(c *ctx, n int) []c12Src {
 		}
 		if m, _ := frontEnd(string(b)); m != nil {
 			pool = append(pool, c12Src{"corpus:" + filepath.Base(f), string(b)})
+		}
+	}
+	// modules with overrides used in helper functions (locals with constant / override-derived initialisers)
+	for i := 0; i < n/2+2; i++ {
+		k1, k2, k3 := c.rng.Intn(50), c.rng.Intn(50), 1+c.rng.Intn(9)
+		src := fmt.Sprintf(`@group(0) @binding(1) var<storage, read_write> outp: array<u32>;
+override ov0: u32 = %du;
+@id(7) override ov1: f32 = 2.0;
+fn scaled(x: u32) -> u32 {
+  var t: u32 = ov0 * %du;
+  var u: u32 = %du;
+  if (x > 3u) { t = t + u; }
+  return t + x;
+}
+fn fl(y: f32) -> f32 {
+  var acc: f32 = ov1 * 10.0;
+  var w: f32 = 7.0;
+  return acc + w + y;
+}
+@compute @workgroup_size(1)
+fn main() {
+  outp[0u] = scaled(%du) + ov0;
+  outp[1u] = u32(fl(1.0));
+}
+`, k1, k3, k2, k2)
+		if m, _ := frontEnd(src); m != nil {
+			pool = append(pool, c12Src{fmt.Sprintf("ovr%d", i), src})
 		}
 	}
 	for i := 0; i < n; i++ {
@@ -142,6 +184,15 @@ func cmdC12(c *ctx) {
 		s := pool[(i*7+int(c.seed))%len(pool)]
 		if i < len(ws) {
 			s = pool[i]
+		} else if i%5 == 1 {
+			// a module with overrides (they sit right after the witnesses and the corpus in the pool)
+			for tries := 0; tries < 50; tries++ {
+				cand := pool[c.rng.Intn(len(pool))]
+				if len(cand.name) > 3 && cand.name[:3] == "ovr" {
+					s = cand
+					break
+				}
+			}
 		}
 		solo := map[string]string{}
 		for _, b := range c12Backends {
@@ -166,6 +217,26 @@ func cmdC12(c *ctx) {
 			}
 		}
 	}
+	// ---- the same back end twice on the same module: the second output must equal the first
+	for i := 0; i < 2*c.n && i < 400; i++ {
+		s := pool[c.rng.Intn(len(pool))]
+		if i%2 == 0 {
+			for tries := 0; tries < 50; tries++ {
+				if cand := pool[c.rng.Intn(len(pool))]; len(cand.name) > 3 && cand.name[:3] == "ovr" {
+					s = cand
+					break
+				}
+			}
+		}
+		b := c12Backends[c.rng.Intn(len(c12Backends))]
+		shared := lower(s)
+		o1, e1 := safeRun(b, shared)
+		o2, e2 := safeRun(b, shared)
+		c.count("twice-compilations")
+		if o1 != o2 || e1 != e2 {
+			report("twice", b.name+" compiled twice on the same module gives different output the second time", s)
+		}
+	}
 	// ---- repeat in-process
 	for i := 0; i < c.n && i < 200; i++ {
 		s := pool[(i*11+3)%len(pool)]
@@ -183,7 +254,7 @@ func cmdC12(c *ctx) {
 		s := pool[(i*13+5)%len(pool)]
 		solo := map[string]string{}
 		for _, b := range c12Backends {
-			if b.name == "dxil" {
+			if mutates[b.name] {
 				continue // mutates the module (recorded finding); would race by construction
 			}
 			o, e := safeRun(b, lower(s))
@@ -193,7 +264,7 @@ func cmdC12(c *ctx) {
 		var wg sync.WaitGroup
 		res := make([]string, len(c12Backends))
 		for bi, b := range c12Backends {
-			if b.name == "dxil" {
+			if mutates[b.name] {
 				continue
 			}
 			wg.Add(1)
@@ -205,7 +276,7 @@ func cmdC12(c *ctx) {
 		}
 		wg.Wait()
 		for bi, b := range c12Backends {
-			if b.name != "dxil" && res[bi] != solo[b.name] {
+			if !mutates[b.name] && res[bi] != solo[b.name] {
 				report("parallel-shared", b.name+" output differs when other back ends compile the same module concurrently", s)
 			}
 			c.count("parallel-compilations")
